@@ -112,14 +112,22 @@ func writeVia(fs filesystem.Filespace, via, path string, data []byte, rng *rand.
 		return err
 	}
 	rest := data
+	scratch := make([]byte, 0, 4096) // one caller-owned buffer reused for every Write, as io.Copy does
 	for len(rest) > 0 {
 		n := 1 + rng.Intn(len(rest))
 		if rng.Intn(3) == 0 {
 			n = 1
 		}
-		if _, err := w.Write(rest[:n]); err != nil {
+		if n > cap(scratch) {
+			n = cap(scratch)
+		}
+		chunk := append(scratch[:0], rest[:n]...)
+		if _, err := w.Write(chunk); err != nil {
 			w.Close()
 			return err
+		}
+		for i := range chunk {
+			chunk[i] = 0xAA // the writer must not depend on the caller's buffer after Write returned
 		}
 		rest = rest[n:]
 		if rng.Intn(5) == 0 {
@@ -313,12 +321,60 @@ func runRound(c *sup.Child, b sup.Batch) {
 				}
 			}
 			// 4. wrong key
-			for _, w := range []string{"secret", "salt"} {
+			variants := []string{"secret+x", "salt+x", "secret+newline", "space+secret", "secret+space", "salt+newline", "secret-bitflip", "secret-lastbyte", "tab+salt"}
+			for _, w := range []string{variants[0], variants[1], variants[2+rng.Intn(len(variants)-2)], variants[2+rng.Intn(len(variants)-2)]} {
 				o2 := cf
-				if w == "secret" {
-					o2.Secret = append(append([]byte{}, cf.Secret...), 'x')
-				} else {
-					o2.Salt = append(append([]byte{}, cf.Salt...), 'x')
+				mut := func(b []byte, how string) []byte {
+					c := append([]byte{}, b...)
+					switch how {
+					case "+x":
+						return append(c, 'x')
+					case "+newline":
+						return append(c, '\n')
+					case "+space":
+						return append(c, ' ')
+					case "space+":
+						return append([]byte{' '}, c...)
+					case "tab+":
+						return append([]byte{'\t'}, c...)
+					case "-bitflip":
+						if len(c) == 0 {
+							return []byte{1}
+						}
+						c[len(c)/2] ^= 0x20
+						return c
+					default: // -lastbyte
+						if len(c) == 0 {
+							return []byte{0}
+						}
+						return c[:len(c)-1]
+					}
+				}
+				switch w {
+				case "secret+x":
+					o2.Secret = mut(cf.Secret, "+x")
+				case "salt+x":
+					o2.Salt = mut(cf.Salt, "+x")
+				case "secret+newline":
+					o2.Secret = mut(cf.Secret, "+newline")
+				case "space+secret":
+					o2.Secret = mut(cf.Secret, "space+")
+				case "secret+space":
+					o2.Secret = mut(cf.Secret, "+space")
+				case "salt+newline":
+					o2.Salt = mut(cf.Salt, "+newline")
+				case "secret-bitflip":
+					o2.Secret = mut(cf.Secret, "-bitflip")
+				case "secret-lastbyte":
+					o2.Secret = mut(cf.Secret, "-lastbyte")
+				case "tab+salt":
+					o2.Salt = mut(cf.Salt, "tab+")
+				}
+				// the key material is secret||salt: a byte moved across that border gives the same key
+				// by construction (documented derivation), so only variants that change the
+				// concatenation are "another secret or salt" in an observable sense
+				if string(o2.Secret)+string(o2.Salt) == string(cf.Secret)+string(cf.Salt) {
+					continue
 				}
 				other, _ := encryptfs.NewEncryptFS(base, o2.settings())
 				a := readFile(other, "d/file")
